@@ -20,7 +20,7 @@ NATIVE = {
     "C08": [("gfi_battery", "vmap_int_axes")], "C09": [("mcmc_noise", "mala"), ("mcmc_noise", "hmc"), ("mcmc_offsupport",)], "C11": [("adev_native", "parallel"), ("adev_native", "geometric")],
     "C12": [("smc_resample",)], "C13": [("distributions_native",)], "C15": [("adev_native", "estimate")], "C16": [("filter_vs_spec",), ("merge_vs_spec",)],
     "C20": [("state_space_native", "hmm"), ("state_space_native", "kalman")],
-    "C06": [("seed_sites",), ("seed_context",)], "C07": [("seed_sites",)],
+    "C06": [("seed_sites",), ("seed_context",)], "C07": [("seed_sites",)], "C19": [("state_collect",)],
 }
 
 
@@ -28,7 +28,7 @@ NATIVE = {
 STACK = {"C01", "C02", "C03", "C04", "C05", "C08", "C16"}
 # native stand-ins that run in the QUICK tier too: behaviour outside the verifier's model of numbers (NaN log densities
 # outside a support: every comparison with NaN is false, so how an accept test is WRITTEN decides what happens)
-QUICK_NATIVE = {"C09": [("mcmc_offsupport",)]}
+QUICK_NATIVE = {"C09": [("mcmc_offsupport",)], "C19": [("state_collect",)]}  # C19: context that exists only while the function is TRACED (open namespaces)
 # further public-interface batteries with an oracle independent of the implementation
 PUBLIC = {"C13": [("distributions_native",)], "C09": [("mcmc_offsupport",)], "C06": [("seed_sites",), ("seed_context",)], "C07": [("seed_sites",)], "C12": [("smc_resample",)], "C10": [("smc_resample",)], "C20": [("state_space_native", "kalman"), ("state_space_native", "hmm")]}
 
